@@ -677,22 +677,41 @@ struct DeflateSession {
                 Slot *sd = g_arena.alloc(n, place, "late_dict", seed, 1);
                 if (!sd)
                         return budget();
-                // twin oracle: refusal must leave the stream's bytes untouched
-                uint64_t before_hash = hash_bytes(&st->internal_state, sizeof(st->internal_state));
-                int r = 0;
-                if (GUARDED(gc, r = isal_deflate_set_dict(st, sd->data, n))) {
-                        report_fault(rr, h, gc.fi, "isal_deflate_set_dict (wrong state)");
+                // either entry point: the dictionary set directly, or pre-processed (legal in any state: it only reads the level) and
+                // then installed with isal_deflate_reset_dict
+                bool via_reset = (seed >> 7) & 1;
+                Slot *sds = via_reset ? g_arena.alloc(sizeof(struct isal_dict), PLACE_END, "late_dict_struct", seed + 1, 8) : nullptr;
+                if (via_reset && !sds)
+                        return budget();
+                // twin oracle: refusal must leave the stream's bytes (and the level buffer) untouched
+                auto snapshot = [&]() {
+                        uint64_t x = hash_bytes(&st->internal_state, sizeof(st->internal_state));
+                        return s_lbuf ? hash_bytes(s_lbuf->data, s_lbuf->len, x) : x;
+                };
+                uint64_t before_hash = snapshot();
+                int r = 0, pr = 0;
+                if (GUARDED(gc, {
+                            if (via_reset) {
+                                    struct isal_dict *ds = (struct isal_dict *) sds->data;
+                                    ds->level = 0; // the one field process_dict validates before filling the structure
+                                    pr = isal_deflate_process_dict(st, ds, sd->data, n);
+                                    before_hash = snapshot();
+                                    r = pr ? pr : isal_deflate_reset_dict(st, ds);
+                            } else
+                                    r = isal_deflate_set_dict(st, sd->data, n);
+                    })) {
+                        report_fault(rr, h, gc.fi, via_reset ? "isal_deflate_process_dict / isal_deflate_reset_dict (wrong state)" : "isal_deflate_set_dict (wrong state)");
                         return false;
                 }
                 g_arena.release(sd);
-                COUNT("fault.dict_in_wrong_state");
+                COUNT(via_reset ? "fault.reset_dict_in_wrong_state" : "fault.dict_in_wrong_state");
                 h.unusual++;
-                h.rec("late_dict", { n, before, r });
+                h.rec("late_dict", { n, before, r, via_reset });
                 if (r == 0) {
-                        rr.fail("C17.dict_wrong_state_accepted", strf("isal_deflate_set_dict accepted in state %d with %u/%u buffered", before, st->internal_state.b_bytes_processed, st->internal_state.b_bytes_valid));
+                        rr.fail("C17.dict_wrong_state_accepted", strf("%s accepted in state %d with %u/%u buffered", via_reset ? "isal_deflate_reset_dict" : "isal_deflate_set_dict", before, st->internal_state.b_bytes_processed, st->internal_state.b_bytes_valid));
                         return false;
                 }
-                if (hash_bytes(&st->internal_state, sizeof(st->internal_state)) != before_hash) {
+                if (snapshot() != before_hash) {
                         rr.fail("C17.dict_refusal_side_effect", "refused dictionary call modified the stream state");
                         return false;
                 }
@@ -788,7 +807,7 @@ static Json gen_deflate(Rng &r0, const std::string &focus, int tier)
         Json ops = Json::arr();
         uint64_t planned = 0;
         for (uint32_t i = 0; i < nops; i++) {
-                if (rio.chance(1, 40)) {
+                if (rio.chance(1, focus == "C17" ? 12 : 40)) {
                         Json o = Json::arr();
                         o.push(1).push((int) rio.below(40000)).push(rio.u64() >> 40);
                         ops.push(o);
